@@ -3,7 +3,7 @@ CONSTANTS
   Peers = {"p1", "p2"}
   Listeners = {1, 2}
   MaxSid = 4
-  MaxSteps = 6
+  MaxSteps = 5
   Sizes = {"m"}
   Cap = 0
   MaxWq = 1
